@@ -27,6 +27,8 @@ pub enum SK {
     Q2Drop,
     /// QoS 2: obtain receipt and park it until the explorer releases / drops it
     Q2Hold,
+    /// as Q2Hold with a caller-chosen packet id (the id stays in use until PUBCOMP)
+    Q2HoldId(u16),
     Sub,
     Unsub,
     /// subscribe / unsubscribe with a caller-chosen packet id
@@ -289,8 +291,12 @@ async fn run_sender_v5(sink: ntex_mqtt::v5::MqttSink, kind: SK, j: usize, app: A
                 }
             }
         }
-        SK::Q2Rel | SK::Q2Drop | SK::Q2Hold => {
-            let r = sink.publish(bs("t")).send_exactly_once(by(&[tag(j)])).await;
+        SK::Q2Rel | SK::Q2Drop | SK::Q2Hold | SK::Q2HoldId(_) => {
+            let mut b = sink.publish(bs("t"));
+            if let SK::Q2HoldId(id) = kind {
+                b = b.packet_id(id);
+            }
+            let r = b.send_exactly_once(by(&[tag(j)])).await;
             match r {
                 Ok(rec) => {
                     let a = ackstr(rec.packet());
@@ -512,8 +518,12 @@ async fn run_sender_v3(sink: ntex_mqtt::v3::MqttSink, kind: SK, j: usize, app: A
                 }
             }
         }
-        SK::Q2Rel | SK::Q2Drop | SK::Q2Hold => {
-            let r = sink.publish(bs("t")).send_exactly_once(by(&[tag(j)])).await;
+        SK::Q2Rel | SK::Q2Drop | SK::Q2Hold | SK::Q2HoldId(_) => {
+            let mut b = sink.publish(bs("t"));
+            if let SK::Q2HoldId(id) = kind {
+                b = b.packet_id(id);
+            }
+            let r = b.send_exactly_once(by(&[tag(j)])).await;
             match r {
                 Ok(rec) => {
                     push("ok".into());
@@ -713,6 +723,10 @@ pub struct Out {
     pub unjudged: Option<String>,
     /// correct acks the peer wrote: (sender, type, id)
     pub good_acks: Vec<(Option<usize>, u8, u16)>,
+    /// ids of exchanges written and not yet finished by their final acknowledgement: (id, final ack type)
+    pub open_ids: Vec<(u16, u8)>,
+    /// first packet written with an id that was still open
+    pub dup_seen: Option<String>,
     pub inbound_sent: u8,
     pub fault_sent: bool,
     pub closed_by_app: bool,
@@ -747,6 +761,7 @@ impl Out {
                             self.per_sender_wire[j] += 1;
                         }
                     }
+                    self.note_open(pid.unwrap_or(0), if *qos == 1 { 4 } else { 7 }, &p);
                     self.wire_pub_ids.push((pid.unwrap_or(0), *qos, s));
                     self.main_q.push_back((if *qos == 1 { 4 } else { 5 }, pid.unwrap_or(0), s));
                     self.pending.push_back(Pending { typ: if *qos == 1 { 3 } else { 32 }, pid: pid.unwrap_or(0), sender: s });
@@ -769,6 +784,7 @@ impl Out {
                             self.per_sender_wire[j] += 1;
                         }
                     }
+                    self.note_open(*pid, 9, &p);
                     self.main_q.push_back((9, *pid, s));
                     self.pending.push_back(Pending { typ: 8, pid: *pid, sender: s })
                 }
@@ -778,11 +794,28 @@ impl Out {
                             self.per_sender_wire[j] += 1;
                         }
                     }
+                    self.note_open(*pid, 11, &p);
                     self.main_q.push_back((11, *pid, s));
                     self.pending.push_back(Pending { typ: 10, pid: *pid, sender: s })
                 }
                 _ => {}
             }
+        }
+    }
+
+    /// an exchange with packet id `id` has been written; it stays open until the peer has sent its final acknowledgement
+    fn note_open(&mut self, id: u16, final_ack: u8, p: &Pkt) {
+        if id != 0 && self.dup_seen.is_none() {
+            if let Some((_, f)) = self.open_ids.iter().find(|(x, _)| *x == id) {
+                self.dup_seen = Some(format!("{} written at step {} while an exchange with the same id (final acknowledgement type {f}) was outstanding", p.short(), step()));
+            }
+        }
+        self.open_ids.push((id, final_ack));
+    }
+
+    fn note_closed(&mut self, id: u16, t: u8) {
+        if let Some(pos) = self.open_ids.iter().position(|(x, f)| *x == id && *f == t) {
+            self.open_ids.remove(pos);
         }
     }
 
@@ -854,6 +887,7 @@ impl Out {
                     }
                     let (_, snd) = self.rel_q.remove(pos).unwrap();
                     self.good_acks.push((snd, 7, id));
+                    self.note_closed(id, 7);
                 }
                 None => {
                     self.ok_at_bad = oks(self);
@@ -868,6 +902,7 @@ impl Out {
                         self.rel_q.push_back((id, snd));
                     }
                     self.good_acks.push((snd, t, id));
+                    self.note_closed(id, t);
                 }
                 _ => {
                     self.ok_at_bad = oks(self);
@@ -905,20 +940,11 @@ impl Out {
                 }
                 open.push(id);
             }
-            // concurrently outstanding = written and not yet answered by a correct ack; with at most 3 sends and
-            // ids released only by correct acks, duplicates among written ids are legal only after such an ack
-            for (i, id) in open.iter().enumerate() {
-                for (j, jd) in open.iter().enumerate() {
-                    if i < j && id == jd {
-                        // the first must have been finished (final ack) before the second was written
-                        let first_step = self.conn.out.iter().filter(|(_, p)| matches!(p, Pkt::Publish { pid: Some(x), .. } if x == id) || matches!(p, Pkt::Subscribe { pid: x, .. } | Pkt::Unsubscribe { pid: x, .. } if x == id)).map(|(s, _)| *s).nth(1).unwrap_or(0);
-                        let finished = self.good_acks.iter().any(|g| g.2 == *id && (g.1 == 4 || g.1 == 7 || g.1 == 9 || g.1 == 11));
-                        let _ = first_step;
-                        if !finished {
-                            return Err(Violation::new("duplicate-packet-id", self.rwit("send"), format!("packet id {id} written twice while the first exchange was outstanding: {}", self.detail())));
-                        }
-                    }
-                }
+            // concurrently outstanding = written and not yet answered by its own final acknowledgement
+            // (PUBACK; PUBCOMP for QoS 2 - a PUBREC does not free the id; SUBACK; UNSUBACK), tracked online in absorb()
+            let _ = open;
+            if let Some(d) = &self.dup_seen {
+                return Err(Violation::new("duplicate-packet-id", self.rwit("send"), format!("{d}: {}", self.detail())));
             }
         }
         match &self.bad_ack {
@@ -1102,7 +1128,7 @@ impl Out {
             return Err(Violation::new("qos2-stopped", self.rwit("correct peer"), format!("connection ended: {stops:?}: {}", self.detail())));
         }
         for (j, s) in a.iter().enumerate() {
-            if !matches!(self.cfg.senders[j], SK::Q2Hold | SK::Q2Rel | SK::Q2Drop) || !s.started {
+            if !matches!(self.cfg.senders[j], SK::Q2Hold | SK::Q2HoldId(_) | SK::Q2Rel | SK::Q2Drop) || !s.started {
                 continue;
             }
             // id this sender's PUBLISH carried
@@ -1256,6 +1282,8 @@ impl Scenario for Out {
                 ok_at_bad: Vec::new(),
                 unjudged: None,
                 good_acks: Vec::new(),
+                open_ids: Vec::new(),
+                dup_seen: None,
                 inbound_sent: 0,
                 fault_sent: false,
                 closed_by_app: false,
@@ -1341,7 +1369,7 @@ impl Scenario for Out {
                 }
             }
             for j in parked {
-                let q2 = matches!(self.cfg.senders[j], SK::Q2Rel | SK::Q2Drop | SK::Q2Hold);
+                let q2 = matches!(self.cfg.senders[j], SK::Q2Rel | SK::Q2Drop | SK::Q2Hold | SK::Q2HoldId(_));
                 // with the write side blocked an encoded PUBLISH may sit in the write buffer: not on the wire yet,
                 // but the exchange has begun
                 if a[j].handle.is_some() && (!q2 || (_q && self.window_open)) {
@@ -1374,13 +1402,15 @@ impl Scenario for Out {
                 a[j].started = true;
                 a[j].handle = Some(h);
                 let chosen = |k: SK| match k {
-                    SK::Q1Id(id) | SK::SubId(id) | SK::UnsubId(id) => Some(id),
+                    SK::Q1Id(id) | SK::SubId(id) | SK::UnsubId(id) | SK::Q2HoldId(id) => Some(id),
                     SK::Stream { plan: 8, .. } => Some(5),
                     _ => None,
                 };
                 if let Some(id) = chosen(kind) {
                     for k in 0..a.len() {
-                        if k != j && chosen(self.cfg.senders[k]) == Some(id) && a[k].started && !a[k].done {
+                        // a QoS 2 exchange keeps its id until PUBCOMP, long after send_exactly_once() has returned
+                        let q2_open = matches!(self.cfg.senders[k], SK::Q2HoldId(_)) && a[k].started && !a[k].cancelled && !self.pubcomp_sent.contains(&id) && !a[k].results.iter().any(|r| r.starts_with("err"));
+                        if k != j && chosen(self.cfg.senders[k]) == Some(id) && ((a[k].started && !a[k].done) || q2_open) {
                             self.id_overlap[j] = true;
                             self.id_overlap[k] = true;
                         }
@@ -1573,7 +1603,7 @@ impl Scenario for Out {
                 let expected_local_failure = during_stream
                     || bad_stream
                     || matches!(self.cfg.senders[j], SK::Q1Big | SK::Q1BigId(_) | SK::SubBig | SK::HugeThenTooLong)
-                    || (matches!(self.cfg.senders[j], SK::Q1Id(_) | SK::SubId(_) | SK::UnsubId(_)) && self.id_overlap[j] && s.results.iter().all(|r| !r.starts_with("err") || r.contains("PacketIdInUse")));
+                    || (matches!(self.cfg.senders[j], SK::Q1Id(_) | SK::SubId(_) | SK::UnsubId(_) | SK::Q2HoldId(_)) && self.id_overlap[j] && s.results.iter().all(|r| !r.starts_with("err") || r.contains("PacketIdInUse")));
                 if s.started && !s.cancelled && !expected_local_failure && s.results.iter().any(|r| r.starts_with("err")) {
                     return Err(Violation::new(
                         "send-failed",
